@@ -80,6 +80,8 @@ def ev_table(ev):
         return ev[3]
     if ev[0] in ("init", "calc", "pickle", "formula"):
         return ev[2]
+    if ev[0] == "keepdrop":
+        return ev[1]
     if ev[0] == "create":
         return ev[1]
     return "public"
@@ -202,6 +204,10 @@ def judge_all(history, res, canon):
             if o[0] != "ok" or o[1][1] != tbl or o[1][2] is not True:
                 out.append(("c10:lookup:%s" % ev[1], "%s.%s(%r) served %r (table %r expected, identical to table[Z]: %r)"
                             % (tbl, ev[1], ev[2], o[1][0] if o[0] == "ok" else o, tbl, o[1][2] if o[0] == "ok" else None)))
+        elif ev[0] == "keepdrop":
+            if o != ["ok", []]:
+                out.append(("c10:dropped-table:restore", "atoms kept from %s after its PeriodicTable object was dropped: %r"
+                            % (tbl, o[1] if o[0] == "ok" else o)))
         elif ev[0] == "formula":
             if o != ["ok", [tbl]]:
                 out.append(("c10:formula-table:%s" % (ev[1][6:] if ev[1].startswith("route:") else
@@ -351,6 +357,13 @@ def family_mutate(full):
         out.append(fixup([["pickle", r, "T1"], ["pickle", r, "T2"], ["pickle", r, "public"]]))
     for f in FORMULAS + H.FORMULA_ROUTES:
         out.append(fixup([["formula", f, "T1"]]))
+    # atoms outlive their table object (always the last event on that table)
+    for tb in ("T1", "T2"):
+        out.append(fixup([["create", tb], ["keepdrop", tb]]))
+        out.append(fixup([["create", tb], ["init", "nsf.init", tb], ["assign", "_mass", "el+", tb, 55.0], ["read", "mass", "el+", tb],
+                          ["keepdrop", tb]]))
+    out.append(fixup([["create", "T1"], ["create", "T2"], ["read", "neutron", "el+", "public"], ["keepdrop", "T1"],
+                      ["pickle", "ion", "T2"], ["pickle", "ion", "public"]]))
     for order in (["T1", "public", "T2"], ["public", "T1", "T2"], ["T2", "T1", "public"]):
         out.append(fixup([["lookup", how, key, t] for t in order for how, key in LOOKUPS]))
     return out
